@@ -1,7 +1,40 @@
-(** * Outcome of one run of a translated Go loop (gen/KmpGen.v): the loop ended (condition false or
-      [break]) with the final values of the variables it assigns, or its body returned from the function. *)
+(** * Support for the translated Go loops (gen/KmpGen.v, gen/SnapSmallGen.v, gen/KmpDedupGen.v).
+
+    [ctl]: outcome of one run of a translated [for] loop: the loop ended (condition false or [break]) with the
+    final values of the variables it assigns, or its body returned from the function.
+    [range_loop]: [for _, x := range l { body }] over the variables the body assigns; the body says
+    [Cont] (next element; also [continue]), [Brk] ([break]) or [RRet] ([return]).
+    [go_copy]: the builtin [copy(dst, src)] as a value: the first min(len dst, len src) elements of dst are
+    replaced by those of src. *)
+From Coq Require Import List.
+From Texel Require Import Prelude.Base.
+Import ListNotations.
+
 Inductive ctl (S R : Type) : Type :=
 | Next (s : S)   (* the loop is over; s = the variables the loop assigns *)
 | Ret (r : R).   (* [return r] inside the loop *)
 Arguments Next {S R} s.
 Arguments Ret {S R} r.
+
+Inductive rctl (S R : Type) : Type :=
+| Cont (s : S)
+| Brk (s : S)
+| RRet (r : R).
+Arguments Cont {S R} s.
+Arguments Brk {S R} s.
+Arguments RRet {S R} r.
+
+Fixpoint range_loop {A S R : Type} (body : A -> S -> res (rctl S R)) (l : list A) (s : S) : res (ctl S R) :=
+  match l with
+  | [] => Ok (Next s)
+  | x :: l' =>
+      match body x s with
+      | Err e => Err e
+      | Ok (Cont s') => range_loop body l' s'
+      | Ok (Brk s') => Ok (Next s')
+      | Ok (RRet r) => Ok (Ret r)
+      end
+  end.
+
+Definition go_copy {A : Type} (dst src : list A) : list A :=
+  firstn (length dst) src ++ skipn (length src) dst.
